@@ -3027,9 +3027,17 @@ foamTagFormat(Foam foam)
 			}
 			else if (tag == FOAM_BInt) {
 				/* !! Should not store here. */
+				/*
+				 * foamToBuffer writes the number of 16-bit places,
+				 * so that is the number the format has to fit.
+				 */
 				BInt	bint;
+				int	slen;
+				U16	*data;
 				bint= xintStore(bintCopy(foamArgv(foam)[0].bint));
-				si  = bint->placec;
+				bintToPlacevS(bint, &slen, &data);
+				si  = slen;
+				bintReleasePlacevS(data);
 				bintFree(bint);
 			}
 			else {
